@@ -169,6 +169,22 @@ pub fn seed_messages(wide: bool) -> Vec<Vec<u8>> {
         out.push(p.encode(0));
         out.push(p.encode(1));
     }
+    for (i, o) in gen::opt_family().into_iter().enumerate() {
+        // a second OPT record in the additional section, at every position
+        let stray = RefRR { name: RefName::root(), class: 1, cache_flush: false, ttl: 0x0100_0000, rdata: RefRData::StrayOpt(o.clone()) };
+        for n_other in 0..3usize {
+            for pos in 0..=n_other {
+                let mut p = RefPacket { id: 0x2223, flags: F_QR, opt: Some(gen::opt_family()[(i + 1) % 4].clone()), ..Default::default() };
+                for _ in 0..n_other {
+                    p.additional.push(tail.clone());
+                }
+                p.additional.insert(pos, stray.clone());
+                for opt_pos in 0..=p.additional.len() {
+                    out.push(p.encode(opt_pos));
+                }
+            }
+        }
+    }
     for code in [10u16, 99, 65280] {
         let mut p = RefPacket { id: 0x3333, ..Default::default() };
         p.answers.push(rr("n.example.com", null_rdata(code, &[1, 2, 3, 4, 5])));
